@@ -228,6 +228,27 @@ def sexpr_of(tree, m):
         o = tree.fields[0].v
         name = {"And": "and", "Or": "or", "List": "list", "Not": "not", "Precedence": "prec"}[o.variant]
         return "(%s %s)" % (name, " ".join(sexpr_of(k, m) for k in o.fields))
+    if isinstance(tree, Adt) and tree.variant == "Action" and tree.fields[0].variant in ("PrintFormatted", "FilePrintFormatted"):
+        act = tree.fields[0]
+        fmt = act.fields[-1]
+        parts = []
+        for e in fmt.items:
+            pick = [x for g, x in alts_of(e) if eval_guard(m, g)]
+            if len(pick) != 1:
+                return None
+            x = pick[0]
+            inner = x.fields[0]
+            if x.variant == "Literal":
+                parts.append('(lit "ab")')
+            elif x.variant == "Field":
+                parts.append("(field %s)" % inner.variant)
+            elif inner.variant == "Ascii":
+                parts.append("(special Ascii %d)" % m.eval(inner.fields[0], model_completion=True).as_long())
+            else:
+                parts.append("(special %s)" % inner.variant)
+        if act.variant == "PrintFormatted":
+            return "(printf %s)" % " ".join(parts)
+        return '(fprintf "out" %s)' % " ".join(parts)
     return None
 
 
